@@ -1,0 +1,4 @@
+// Declares the verification-hook cfg so that builds without it stay warning-free.
+fn main() {
+    println!("cargo::rustc-check-cfg=cfg(compio_verif)");
+}
